@@ -1,220 +1,566 @@
-(* C09 — soundness of the reported result type and nullability, by induction on expressions. *)
+(* C09 — soundness of the reported result type and nullability, by one structural induction on expressions. *)
 From Coq Require Import List ZArith Bool Lia.
 Import ListNotations.
 From GMS Require Import Expr.C09Typing.
 Open Scope Z_scope.
-
-Definition notnull (x : val) : bool := match x with VNull => false | _ => true end.
-
-Lemma conforms_nth s : forall r i, conforms s r = true -> (i < length s)%nat ->
-  conforms_col (nth i s (Col TInt true)) (nth i r VNull) = true.
-Proof.
-  induction s as [|c s IH]; intros [|x r] i H Hi; cbn in *; try discriminate; try lia.
-  apply andb_prop in H. destruct H as [H1 H2]. destruct i; [exact H1|]. apply IH; [exact H2|lia].
-Qed.
-
-Lemma conforms_length s : forall r, conforms s r = true -> length r = length s.
-Proof.
-  induction s as [|c s IH]; intros [|x r] H; cbn in *; try discriminate; [reflexivity|].
-  apply andb_prop in H. f_equal. apply IH. tauto.
-Qed.
-
-Lemma int_res_typed z x : int_res z = Ok x -> has_type TInt x = true /\ notnull x = true.
-Proof. unfold int_res. destruct (int64_ok z) eqn:E; [|discriminate]. intros H. injection H as <-. cbn. auto. Qed.
-
-Lemma bool_val_typed b : has_type TBool (bool_val b) = true.
-Proof. destruct b; reflexivity. Qed.
 
 Ltac tt := repeat match goal with
   | H : _ && _ = true |- _ => apply andb_prop in H; destruct H
   | H : _ || _ = false |- _ => apply orb_false_elim in H; destruct H
   end.
 
-(* a numeric-typed value is NULL or an integer *)
-Lemma numeric_val t x : numeric t = true -> has_type t x = true -> match x with VStr _ => False | _ => True end.
-Proof. destruct t, x; cbn; try discriminate; auto. Qed.
-Lemma str_val t x : ty_eqb t TStr = true -> has_type t x = true -> match x with VInt _ => False | _ => True end.
-Proof. destruct t, x; cbn; try discriminate; auto. Qed.
+(* ---------------- induction principle with the nested lists ---------------- *)
+Definition opt_P (P : expr -> Prop) (o : option expr) : Prop := match o with Some x => P x | None => True end.
+Section ExprInd.
+  Variable P : expr -> Prop.
+  Hypothesis HField : forall i, P (EField i).
+  Hypothesis HLit : forall x, P (ELit x).
+  Hypothesis HNeg : forall a, P a -> P (ENeg a).
+  Hypothesis HArith : forall o a b, P a -> P b -> P (EArith o a b).
+  Hypothesis HIntDiv : forall a b, P a -> P b -> P (EIntDiv a b).
+  Hypothesis HMod : forall a b, P a -> P b -> P (EMod a b).
+  Hypothesis HCmp : forall o a b, P a -> P b -> P (ECmp o a b).
+  Hypothesis HAnd : forall a b, P a -> P b -> P (EAnd a b).
+  Hypothesis HOr : forall a b, P a -> P b -> P (EOr a b).
+  Hypothesis HNot : forall a, P a -> P (ENot a).
+  Hypothesis HIsNull : forall a, P a -> P (EIsNull a).
+  Hypothesis HIn : forall a l, P a -> Forall P l -> P (EIn a l).
+  Hypothesis HBetween : forall a b c, P a -> P b -> P c -> P (EBetween a b c).
+  Hypothesis HCase : forall bs els, Forall (fun p => P (fst p) /\ P (snd p)) bs ->
+    opt_P P els -> P (ECase bs els).
+  Hypothesis HNullIf : forall a b, P a -> P b -> P (ENullIf a b).
+  Hypothesis HIfNull : forall a b, P a -> P b -> P (EIfNull a b).
+  Hypothesis HCoalesce : forall a b, P a -> P b -> P (ECoalesce a b).
+  Hypothesis HIf : forall c a b, P c -> P a -> P b -> P (EIf c a b).
+  Hypothesis HGreatest : forall a b, P a -> P b -> P (EGreatest a b).
+  Hypothesis HLeast : forall a b, P a -> P b -> P (ELeast a b).
+  Hypothesis HCast : forall a t, P a -> P (ECast a t).
+  Hypothesis HConcat : forall a b, P a -> P b -> P (EConcat a b).
+  Hypothesis HUpper : forall a, P a -> P (EUpper a).
+  Hypothesis HSubstr : forall a p n, P a -> P (ESubstr a p n).
+  Hypothesis HLength : forall a, P a -> P (ELength a).
 
-Lemma has_type_join ta tb x : Bool.eqb (numeric ta) (numeric tb) = true ->
-  (has_type ta x = true -> has_type (join_ty ta tb) x = true) /\ (has_type tb x = true -> has_type (join_ty ta tb) x = true).
+  Fixpoint expr_rect' (e : expr) : P e :=
+    match e with
+    | EField i => HField i | ELit x => HLit x
+    | ENeg a => HNeg a (expr_rect' a)
+    | EArith o a b => HArith o a b (expr_rect' a) (expr_rect' b)
+    | EIntDiv a b => HIntDiv a b (expr_rect' a) (expr_rect' b)
+    | EMod a b => HMod a b (expr_rect' a) (expr_rect' b)
+    | ECmp o a b => HCmp o a b (expr_rect' a) (expr_rect' b)
+    | EAnd a b => HAnd a b (expr_rect' a) (expr_rect' b)
+    | EOr a b => HOr a b (expr_rect' a) (expr_rect' b)
+    | ENot a => HNot a (expr_rect' a)
+    | EIsNull a => HIsNull a (expr_rect' a)
+    | EIn a l => HIn a l (expr_rect' a)
+        ((fix go (l : list expr) : Forall P l :=
+            match l with [] => Forall_nil _ | x :: t => Forall_cons x (expr_rect' x) (go t) end) l)
+    | EBetween a b c => HBetween a b c (expr_rect' a) (expr_rect' b) (expr_rect' c)
+    | ECase bs els => HCase bs els
+        ((fix go (l : list (expr * expr)) : Forall (fun p => P (fst p) /\ P (snd p)) l :=
+            match l with
+            | [] => Forall_nil _
+            | p :: t => Forall_cons p (conj (expr_rect' (fst p)) (expr_rect' (snd p))) (go t)
+            end) bs)
+        (match els as o return opt_P P o with Some x => expr_rect' x | None => I end)
+    | ENullIf a b => HNullIf a b (expr_rect' a) (expr_rect' b)
+    | EIfNull a b => HIfNull a b (expr_rect' a) (expr_rect' b)
+    | ECoalesce a b => HCoalesce a b (expr_rect' a) (expr_rect' b)
+    | EIf c a b => HIf c a b (expr_rect' c) (expr_rect' a) (expr_rect' b)
+    | EGreatest a b => HGreatest a b (expr_rect' a) (expr_rect' b)
+    | ELeast a b => HLeast a b (expr_rect' a) (expr_rect' b)
+    | ECast a t => HCast a t (expr_rect' a)
+    | EConcat a b => HConcat a b (expr_rect' a) (expr_rect' b)
+    | EUpper a => HUpper a (expr_rect' a)
+    | ESubstr a p n => HSubstr a p n (expr_rect' a)
+    | ELength a => HLength a (expr_rect' a)
+    end.
+End ExprInd.
+
+(* ---------------- rows ---------------- *)
+Lemma conforms_nth s : forall r i, conforms s r = true -> conforms_col (nth i s dflt) (nth i r VNull) = true.
 Proof.
-  destruct ta, tb, x as [|z|t]; cbn; intros H; split; intros T; try discriminate; try reflexivity; try exact T.
-  all: unfold int64_ok; apply orb_prop in T; destruct T as [T|T]; apply Z.eqb_eq in T; subst; reflexivity.
+  induction s as [|c s IH]; intros [|x r] i H; cbn [conforms] in H; try discriminate.
+  - destruct i; reflexivity.
+  - apply andb_prop in H. destruct H as [H1 H2]. destruct i; cbn [nth]; [exact H1|]. apply IH. exact H2.
+Qed.
+Lemma conforms_length s : forall r, conforms s r = true -> length r = length s.
+Proof.
+  induction s as [|c s IH]; intros [|x r] H; cbn [conforms] in H; try discriminate; [reflexivity|].
+  apply andb_prop in H. cbn [length]. f_equal. apply IH. tauto.
 Qed.
 
-(* the main induction: type and nullability together *)
-Theorem eval_sound s r : conforms s r = true -> forall e x, well_typed s e = true -> eval r e = Ok x ->
-  has_type (type_of s e) x = true /\ (nullable s e = false -> notnull x = true).
+(* ---------------- value-level lemmas, one group per operator ---------------- *)
+Lemma fit_typed k z x : fit k z = Ok x -> has_type (TInt k) x = true /\ notnull x = true.
+Proof. unfold fit. destruct (in_kind k z) eqn:E; [|discriminate]. intros H. injection H as <-. cbn. auto. Qed.
+Lemma bool_val_typed b : has_type TBool (bool_val b) = true.
+Proof. destruct b; reflexivity. Qed.
+Lemma bool_val_notnull b : notnull (bool_val b) = true.
+Proof. reflexivity. Qed.
+
+(* a value of an integer type is NULL or an integer in the range of the kind *)
+Lemma int_shape t x : is_integer t = true -> has_type t x = true ->
+  x = VNull \/ exists z, x = VInt z /\ (is_unsigned t = true -> 0 <= z).
 Proof.
-  intros HC. induction e as [i|l|a IHa|a IHa b IHb|a IHa b IHb|a IHa b IHb|a IHa b IHb|a IHa b IHb|a IHa b IHb|a IHa b IHb|a IHa|a IHa b IHb|c IHc a IHa b IHb|a IHa b IHb];
-    intros x WT EV; cbn [well_typed type_of nullable eval] in *.
+  intros Hi Ht. destruct x as [|z|m sc|n d|b]; [left; reflexivity| |destruct t; discriminate..].
+  right. exists z. split; [reflexivity|]. intros Hu. destruct t as [| |k| | |]; try discriminate.
+  cbn in Ht. unfold in_kind in Ht. apply andb_prop in Ht. destruct Ht as [L _]. apply Z.leb_le in L.
+  destruct k; cbn in Hu; try discriminate; cbn in L; exact L.
+Qed.
+
+(* negation *)
+Lemma sw_range w z : 0 < w -> - two (w - 1) <= sw w z < two (w - 1).
+Proof.
+  intros Hw. unfold sw, two.
+  assert (E : 2 ^ w = 2 * 2 ^ (w - 1)) by (rewrite <- Z.pow_succ_r by lia; f_equal; lia).
+  assert (Hp : 0 < 2 ^ (w - 1)) by (apply Z.pow_pos_nonneg; lia).
+  rewrite E. set (h := 2 ^ (w - 1)) in *. clearbody h.
+  assert (B : 0 <= z mod (2 * h) < 2 * h) by (apply Z.mod_pos_bound; lia).
+  set (m := z mod (2 * h)) in *. clearbody m.
+  destruct (m <? h) eqn:L; [apply Z.ltb_lt in L|apply Z.ltb_ge in L]; lia.
+Qed.
+Lemma two31 : two (32 - 1) = 2147483648. Proof. reflexivity. Qed.
+Lemma two63 : two (64 - 1) = 9223372036854775808. Proof. reflexivity. Qed.
+
+Definition neg_guard (t : ty) : bool :=
+  match t with TInt I8 | TInt I16 | TInt I32 | TInt I64 | TInt U32 | TInt U64 => true | TDec _ _ => true | _ => false end.
+Lemma neg_typed t x v : neg_guard t = true -> has_type t x = true -> neg_val t x = Ok v -> has_type (neg_ty t) v = true.
+Proof.
+  intros G T E. destruct x as [|z|m sc|n d|b]; cbn [neg_val] in E; try discriminate.
+  - injection E as <-. reflexivity.
+  - destruct t as [| |k|p s| |]; try discriminate.
+    + destruct k; try discriminate; cbn [neg_ty].
+      * injection E as <-. cbn in *. unfold in_kind, ik_lo, ik_hi in *. lia.
+      * injection E as <-. cbn in *. unfold in_kind, ik_lo, ik_hi in *. lia.
+      * injection E as <-. cbn in *. unfold in_kind, ik_lo, ik_hi in *. lia.
+      * injection E as <-. pose proof (sw_range 32 (- sw 32 z) ltac:(lia)) as B. rewrite two31 in B.
+        cbn [has_type]. unfold in_kind, ik_lo, ik_hi. lia.
+      * destruct (z =? ik_lo I64) eqn:Z0; [discriminate|]. injection E as <-. apply Z.eqb_neq in Z0.
+        cbn [has_type] in *. unfold in_kind, ik_lo, ik_hi in *. lia.
+      * injection E as <-. pose proof (sw_range 64 (- sw 64 z) ltac:(lia)) as B. rewrite two63 in B.
+        cbn [has_type]. unfold in_kind, ik_lo, ik_hi. lia.
+    + injection E as <-. cbn [neg_ty has_type] in *. rewrite Z.abs_opp. exact T.
+  - injection E as <-. destruct t; try discriminate. cbn [neg_ty has_type] in *. rewrite Z.abs_opp. exact T.
+Qed.
+Lemma neg_notnull t x v : neg_val t x = Ok v -> notnull x = true -> notnull v = true.
+Proof.
+  destruct x as [|z|m sc|n d|b]; cbn [neg_val]; intros E N; try discriminate.
+  - destruct t as [| |k| | |]; try discriminate; try (injection E as <-; reflexivity).
+    destruct k; try (injection E as <-; reflexivity). destruct (z =? ik_lo I64); [discriminate|]. injection E as <-. reflexivity.
+  - injection E as <-. reflexivity.
+Qed.
+
+(* + - * *)
+Lemma arith_int_ty o l r : is_integer l = true -> is_integer r = true -> exists k, arith_ty o l r = TInt k.
+Proof.
+  intros Hl Hr. unfold arith_ty.
+  assert (is_text l = false) as -> by (destruct l; try reflexivity; discriminate).
+  assert (is_text r = false) as -> by (destruct r; try reflexivity; discriminate). cbn [orb].
+  assert ((match l, r with TDbl, _ | _, TDbl => true | _, _ => false end) = false) as ->
+    by (destruct l, r; try reflexivity; discriminate).
+  destruct (is_unsigned l && is_unsigned r); [eauto|]. rewrite Hl, Hr. cbn. eauto.
+Qed.
+Lemma arith_typed o k x y v : arith_val o (TInt k) x y = Ok v -> has_type (TInt k) v = true.
+Proof.
+  unfold arith_val. destruct x as [|a|m1 s1|n1 d1|b1], y as [|b|m2 s2|n2 d2|b2]; intros E; try discriminate; try (injection E as <-; reflexivity).
+  destruct (in_kind k a && in_kind k b); [|discriminate]. apply fit_typed in E. tauto.
+Qed.
+Lemma arith_notnull o t x y v : arith_val o t x y = Ok v -> notnull x = true -> notnull y = true -> notnull v = true.
+Proof.
+  intros E Nx Ny. destruct x as [|a|m1 s1|n1 d1|b1]; try discriminate; destruct y as [|b|m2 s2|n2 d2|b2]; try discriminate;
+  unfold arith_val in E; destruct t as [| |k|p s| |]; try discriminate; cbn [to_dec] in E; try discriminate;
+  try (destruct (in_kind k a && in_kind k b); [apply fit_typed in E; tauto|discriminate]);
+  destruct o; unfold align in E; cbn [fst snd] in E; injection E as <-; reflexivity.
+Qed.
+
+(* DIV *)
+Lemma align_ints z w : align (z, 0) (w, 0) = (z, w, 0).
+Proof. unfold align. cbn [fst snd]. change (Z.max 0 0) with 0. change (10 ^ (0 - 0)) with 1. rewrite !Z.mul_1_r. reflexivity. Qed.
+Lemma intdiv_typed l r x y v :
+  (is_unsigned l && is_unsigned r) || (is_signed l && is_signed r) = true ->
+  has_type l x = true -> has_type r y = true -> intdiv_val (intdiv_ty l r) x y = Ok v -> has_type (intdiv_ty l r) v = true.
+Proof.
+  intros G Tx Ty E.
+  assert (Il : is_integer l = true) by (unfold is_integer; destruct (is_unsigned l), (is_signed l); cbn in *; try reflexivity; discriminate).
+  assert (Ir : is_integer r = true) by (unfold is_integer; destruct (is_unsigned r), (is_signed r), (is_unsigned l), (is_signed l); cbn in *; try reflexivity; discriminate).
+  destruct (int_shape l x Il Tx) as [->|[z [-> Pz]]]; [cbn in E; injection E as <-; reflexivity|].
+  destruct (int_shape r y Ir Ty) as [->|[w [-> Pw]]]; [cbn in E; injection E as <-; reflexivity|].
+  unfold intdiv_val in E. cbn [to_dec] in E. rewrite align_ints in E.
+  destruct (w =? 0) eqn:W0; [injection E as <-; reflexivity|]. apply Z.eqb_neq in W0.
+  destruct (in_kind I64 (z ÷ w)) eqn:K; [|discriminate]. injection E as <-.
+  unfold intdiv_ty. destruct (is_unsigned l) eqn:Ul.
+  - destruct (is_unsigned r) eqn:Ur.
+    + cbn [orb has_type]. specialize (Pz eq_refl). specialize (Pw eq_refl).
+      assert (0 <= z ÷ w) by (apply Z.quot_pos; lia).
+      unfold in_kind, ik_lo, ik_hi in *. lia.
+    + exfalso. cbn in G. destruct l as [| |k| | |]; try discriminate. cbn in Ul, G. destruct (ik_signed k); discriminate.
+  - destruct (is_unsigned r) eqn:Ur; [|exact K].
+    exfalso. cbn in G. destruct r as [| |k| | |]; try discriminate. cbn in Ur, G. rewrite andb_comm in G. destruct (ik_signed k); cbn in *; discriminate.
+Qed.
+
+(* % with an integer literal operand *)
+Lemma rem_le_abs a b : b <> 0 -> Z.abs (Z.rem a b) <= Z.abs a /\ Z.abs (Z.rem a b) < Z.abs b.
+Proof.
+  intros Hb. rewrite <- Z.rem_abs by exact Hb. assert (0 < Z.abs b) by lia.
+  rewrite Z.rem_mod_nonneg by lia. pose proof (Z.mod_pos_bound (Z.abs a) (Z.abs b) ltac:(lia)).
+  split; [apply Z.mod_le; lia|lia].
+Qed.
+Lemma mod_typed p sc x y v lim :
+  (x = VNull \/ exists z, x = VInt z) -> (y = VNull \/ exists z, y = VInt z) ->
+  (x = VInt lim \/ y = VInt lim) -> Z.abs lim < 10 ^ (p - sc) ->
+  mod_val x y = Ok v -> has_type (TDec p sc) v = true.
+Proof.
+  intros [->|[a ->]] [->|[b ->]] L B E; cbn [mod_val] in E; try (injection E as <-; reflexivity).
+  destruct (b =? 0) eqn:B0; [injection E as <-; reflexivity|]. apply Z.eqb_neq in B0. injection E as <-.
+  cbn [has_type]. apply Z.ltb_lt. destruct (rem_le_abs a b B0) as [R1 R2].
+  destruct L as [L|L]; injection L as ->; lia.
+Qed.
+
+(* comparisons and logic *)
+Lemma cmp_res_sound o x y v : cmp_res o x y = Ok v ->
+  has_type TBool v = true /\ (notnull x = true -> notnull y = true -> notnull v = true).
+Proof.
+  unfold cmp_res. intros E.
+  destruct x as [|a|m1 s1|n1 d1|b1]; try (injection E as <-; split; [reflexivity|discriminate]);
+  destruct y as [|b|m2 s2|n2 d2|b2]; try (injection E as <-; split; [reflexivity|intros; discriminate]);
+  match type of E with (match ?c with _ => _ end) = _ => destruct c end; try discriminate;
+  injection E as <-; split; auto using bool_val_typed.
+Qed.
+Lemma and3_sound x y v : and3 x y = Ok v ->
+  has_type TBool v = true /\ (notnull x = true -> notnull y = true -> notnull v = true).
+Proof.
+  unfold and3. intros E.
+  destruct x as [|a|m s1|n d1|b1]; cbn [truth] in E;
+  repeat match type of E with context [negb ?c] => destruct c; cbn [negb] in E end;
+  destruct y as [|b|m' s2|n' d2|b2]; cbn [truth] in E;
+  repeat match type of E with context [negb ?c] => destruct c; cbn [negb] in E end;
+  try discriminate; injection E as <-; split; try reflexivity; intros; try reflexivity; discriminate.
+Qed.
+Lemma or3_sound x y v : or3 x y = Ok v ->
+  has_type TBool v = true /\ (notnull x = true -> notnull y = true -> notnull v = true).
+Proof.
+  unfold or3. intros E.
+  destruct x as [|a|m s1|n d1|b1]; cbn [truth] in E;
+  repeat match type of E with context [negb ?c] => destruct c; cbn [negb] in E end;
+  destruct y as [|b|m' s2|n' d2|b2]; cbn [truth] in E;
+  repeat match type of E with context [negb ?c] => destruct c; cbn [negb] in E end;
+  try discriminate; injection E as <-; split; try reflexivity; intros; try reflexivity; discriminate.
+Qed.
+Lemma not3_sound x v : not3 x = Ok v -> has_type TBool v = true /\ (notnull x = true -> notnull v = true).
+Proof.
+  unfold not3. intros E. destruct x as [|a|m s1|n d1|b1]; cbn [truth] in E; try discriminate;
+  injection E as <-; split; auto using bool_val_typed; try discriminate.
+Qed.
+
+(* IN *)
+Lemma in_go_typed ev x : forall l sn v, in_go ev x l sn = Ok v -> has_type TBool v = true.
+Proof.
+  induction l as [|y l IH]; intros sn v E; cbn [in_go] in E.
+  - injection E as <-. destruct sn; reflexivity.
+  - destruct (ev y) as [w|]; [|discriminate]. cbn [bindr] in E.
+    destruct w; try (eapply IH; exact E);
+    (destruct (cmp_vals x _) as [[| |]|]; [injection E as <-; reflexivity|eapply IH; exact E|eapply IH; exact E|discriminate]).
+Qed.
+
+(* conversion to the type of a CASE / IF / IFNULL / COALESCE *)
+Lemma conv_notnull t x : notnull (conv_to t x) = notnull x.
+Proof. destruct t, x; try reflexivity; unfold conv_to; destruct (print_val _); reflexivity. Qed.
+Lemma print_some_int z : exists b, print_val (VInt z) = Some b. Proof. unfold print_val. eauto. Qed.
+Lemma print_some_dec m s : exists b, print_val (VDec m s) = Some b. Proof. unfold print_val. destruct (s <=? 0); eauto. Qed.
+Lemma ikind_eqb_eq a b : ikind_eqb a b = true -> a = b.
+Proof. destruct a, b; cbn; intros; try discriminate; reflexivity. Qed.
+Lemma ty_equals_has_type a t x : ty_equals a t = true -> has_type a x = true -> has_type t x = true.
+Proof.
+  intros E T. destruct a as [| |k|p s| |], t as [| |k'|p' s'| |]; cbn in E; try discriminate; try exact T;
+  try (apply ikind_eqb_eq in E; subst; exact T);
+  try (apply andb_prop in E; destruct E as [E1 E2]; apply Z.eqb_eq in E1, E2; subst; exact T);
+  try (destruct k'; try discriminate; exact T); try (destruct k; try discriminate; exact T);
+  destruct k; apply ikind_eqb_eq in E; subst; exact T.
+Qed.
+Lemma holds_sound a t x : holds a t = true -> has_type a x = true -> has_type t (conv_to t x) = true.
+Proof.
+  intros H T. destruct x as [|z|m sc|n d|b].
+  - destruct t; reflexivity.
+  - (* integer value *)
+    destruct t as [| |k'|p s| |].
+    + unfold holds in H. apply orb_prop in H. destruct H as [H|H]; [exact (ty_equals_has_type _ _ _ H T)|]. destruct a; discriminate.
+    + unfold holds in H. apply orb_prop in H. destruct H as [H|H]; [exact (ty_equals_has_type _ _ _ H T)|]. destruct a; discriminate.
+    + unfold holds in H. apply orb_prop in H. destruct H as [H|H]; [exact (ty_equals_has_type _ _ _ H T)|].
+      destruct a as [| |k| | |]; try discriminate; cbn [conv_to has_type] in *; unfold in_kind in *; tt;
+      repeat match goal with Q : (_ <=? _) = true |- _ => apply Z.leb_le in Q end; apply andb_true_intro; split; apply Z.leb_le; lia.
+    + unfold holds in H. apply orb_prop in H. destruct H as [H|H]; [exact (ty_equals_has_type _ _ _ H T)|].
+      destruct a as [| |k|q r| |]; try discriminate; cbn [conv_to has_type] in *.
+      * unfold in_kind, ik_lo, ik_hi in T. apply Z.ltb_lt in H. apply Z.ltb_lt. lia.
+      * unfold in_kind in T. tt. apply Z.ltb_lt in H. apply Z.ltb_lt.
+        repeat match goal with Q : (_ <=? _) = true |- _ => apply Z.leb_le in Q end. lia.
+      * tt. apply Z.ltb_lt in T. apply Z.ltb_lt.
+        repeat match goal with Q : (_ <=? _) = true |- _ => apply Z.leb_le in Q end.
+        assert (10 ^ (q - r) <= 10 ^ (p - s)) by (apply Z.pow_le_mono_r; lia). lia.
+    + unfold holds in H. apply orb_prop in H. destruct H as [H|H]; [exact (ty_equals_has_type _ _ _ H T)|]. destruct a; discriminate.
+    + cbn [conv_to]. destruct (print_some_int z) as [b ->]. reflexivity.
+  - (* decimal value *)
+    destruct t as [| |k'|p s| |];
+      try (unfold holds in H; apply orb_prop in H; destruct H as [H|H]; [exact (ty_equals_has_type _ _ _ H T)|]; destruct a; discriminate).
+    + unfold holds in H. apply orb_prop in H. destruct H as [H|H]; [exact (ty_equals_has_type _ _ _ H T)|].
+      destruct a as [| |k|q r| |]; try discriminate. cbn [conv_to has_type] in *.
+      apply andb_prop in H; destruct H as [Hr Hw]. apply Z.leb_le in Hr, Hw.
+      apply andb_prop in T; destruct T as [T Tm]. apply andb_prop in T; destruct T as [T0 Ts].
+      apply Z.leb_le in T0, Ts. apply Z.ltb_lt in Tm.
+      apply andb_true_intro; split; [apply andb_true_intro; split; apply Z.leb_le; lia|apply Z.ltb_lt].
+      assert (10 ^ (q - r + sc) <= 10 ^ (p - s + sc)) by (apply Z.pow_le_mono_r; lia). lia.
+    + cbn [conv_to]. destruct (print_some_dec m sc) as [b ->]. reflexivity.
+  - destruct t as [| |k'|p s| |];
+      try (unfold holds in H; apply orb_prop in H; destruct H as [H|H]; [exact (ty_equals_has_type _ _ _ H T)|]; destruct a; discriminate).
+  - destruct t as [| |k'|p s| |];
+      try (unfold holds in H; apply orb_prop in H; destruct H as [H|H]; [exact (ty_equals_has_type _ _ _ H T)|]; destruct a; discriminate).
+    reflexivity.
+Qed.
+
+Lemma concat_sound x y v : concat_val x y = Ok v ->
+  has_type TStr v = true /\ (notnull x = true -> notnull y = true -> notnull v = true).
+Proof.
+  unfold concat_val. intros E.
+  destruct x as [|a|m1 s1|n1 d1|b1]; try (injection E as <-; split; [reflexivity|discriminate]);
+  destruct y as [|b|m2 s2|n2 d2|b2]; try (injection E as <-; split; [reflexivity|intros; discriminate]);
+  (match type of E with (match ?a with _ => _ end) = _ => destruct a end; [|discriminate]);
+  (match type of E with (match ?a with _ => _ end) = _ => destruct a end; [|discriminate]);
+  injection E as <-; split; reflexivity.
+Qed.
+
+(* CAST *)
+Lemma cast_typed t x v : cast_val t x = Ok v -> has_type (cast_ty t) v = true /\ (notnull x = true -> notnull v = true).
+Proof.
+  unfold cast_val. intros E.
+  destruct x as [|z|m sc|n d|b]; try (injection E as <-; split; [destruct t; reflexivity|discriminate]);
+  destruct t as [| |p s|]; cbn [cast_ty] in *; try discriminate.
+  all: try (repeat match type of E with
+    | fit _ _ = _ => apply fit_typed in E; tauto
+    | (if ?c then _ else _) = _ => destruct c
+    | _ => discriminate
+    end; fail).
+  all: try (destruct (print_val _); [injection E as <-; split; reflexivity|discriminate]).
+  all: destruct (to_dec _) as [[m0 s0]|]; [|discriminate];
+    match type of E with (if ?c then _ else _) = _ => destruct c eqn:C end; [|discriminate];
+    injection E as <-; split; [|reflexivity]; cbn [has_type];
+    apply andb_prop in C; destruct C as [C C3]; apply andb_prop in C; destruct C as [C1 C2];
+    replace (p - s + s) with p by lia; rewrite C1, C3, Z.leb_refl; reflexivity.
+Qed.
+
+(* ---------------- the main induction ---------------- *)
+Section Sound.
+Variable s : schema.
+Variable r : row.
+Hypothesis HC : conforms s r = true.
+
+Definition sound (e : expr) : Prop := forall x, eval s r e = Ok x ->
+  (nullable s e = false -> notnull x = true) /\ (well_typed s e = true -> has_type (type_of s e) x = true).
+
+Ltac ev2 a b := let Ea := fresh "Ea" in let Eb := fresh "Eb" in
+  destruct (eval s r a) as [?va|] eqn:Ea; [|discriminate]; destruct (eval s r b) as [?vb|] eqn:Eb; [|discriminate];
+  cbn [bindr] in *.
+
+Lemma case_sound t els : (forall x, match els with Some e => eval s r e = Ok x -> has_type t (conv_to t x) = true | None => True end) ->
+  forall bs, Forall (fun p => forall x, eval s r (snd p) = Ok x -> has_type t (conv_to t x) = true) bs ->
+  forall v, case_go (eval s r) t els bs = Ok v -> has_type t v = true.
+Proof.
+  intros He. induction bs as [|p bs IH]; intros F v E; cbn [case_go] in E.
+  - destruct els as [e|]; [|injection E as <-; reflexivity].
+    destruct (eval s r e) as [w|] eqn:Ee; [|discriminate]. injection E as <-. apply (He w). first [exact Ee|reflexivity].
+  - inversion F as [|? ? Fp Fr]; subst. destruct (eval s r (fst p)) as [cv|]; [|discriminate]. cbn [bindr] in E.
+    destruct (truth cv) as [[[|]|]|]; try discriminate; try (apply IH; assumption).
+    destruct (eval s r (snd p)) as [w|] eqn:Ew; [|discriminate]. injection E as <-. apply Fp. first [exact Ew|reflexivity].
+Qed.
+Lemma case_notnull t els : (match els with Some e => forall x, eval s r e = Ok x -> notnull x = true | None => False end) ->
+  forall bs, Forall (fun p => forall x, eval s r (snd p) = Ok x -> notnull x = true) bs ->
+  forall v, case_go (eval s r) t els bs = Ok v -> notnull v = true.
+Proof.
+  intros He. induction bs as [|p bs IH]; intros F v E; cbn [case_go] in E.
+  - destruct els as [e|]; [|contradiction].
+    destruct (eval s r e) as [w|] eqn:Ee; [|discriminate]. injection E as <-. rewrite conv_notnull. apply He. first [exact Ee|reflexivity].
+  - inversion F as [|? ? Fp Fr]; subst. destruct (eval s r (fst p)) as [cv|]; [|discriminate]. cbn [bindr] in E.
+    destruct (truth cv) as [[[|]|]|]; try discriminate; try (apply IH; assumption).
+    destruct (eval s r (snd p)) as [w|] eqn:Ew; [|discriminate]. injection E as <-. rewrite conv_notnull. apply Fp. first [exact Ew|reflexivity].
+Qed.
+
+Lemma int_lit_eval e z x : is_int_lit e = Some z -> eval s r e = Ok x -> x = VInt z.
+Proof.
+  destruct e as [|[|z'| | |]| | | | | | | | | | | | | | | | | | | | | | |]; cbn; intros L E; try discriminate.
+  injection L as ->. injection E as <-. reflexivity.
+Qed.
+
+Theorem eval_sound : forall e, sound e.
+Proof.
+  induction e as [i|lv|e IHe|o e1 e2 IHe1 IHe2|e1 e2 IHe1 IHe2|e1 e2 IHe1 IHe2|o e1 e2 IHe1 IHe2|e1 e2 IHe1 IHe2|e1 e2 IHe1 IHe2|e IHe|e IHe|e l IHe H|e1 e2 e3 IHe1 IHe2 IHe3|bs els H H0|e1 e2 IHe1 IHe2|e1 e2 IHe1 IHe2|e1 e2 IHe1 IHe2|e1 e2 e3 IHe1 IHe2 IHe3|e1 e2 IHe1 IHe2|e1 e2 IHe1 IHe2|e t IHe|e1 e2 IHe1 IHe2|e IHe|e p n IHe|e IHe] using expr_rect'; unfold sound in *; intros x EV; cbn [eval] in EV.
   - (* field *)
-    apply Nat.ltb_lt in WT. injection EV as <-. pose proof (conforms_nth s r i HC WT) as H.
-    unfold conforms_col in H. tt. split; [assumption|]. intros Hn. rewrite Hn in *. cbn in *.
-    destruct (nth i r VNull); [discriminate|reflexivity|reflexivity].
-  - injection EV as <-. split; [exact WT|]. destruct l; [discriminate|reflexivity|reflexivity].
+    injection EV as <-. pose proof (conforms_nth s r i HC) as H. unfold conforms_col in H. apply andb_prop in H. destruct H as [T N].
+    cbn [nullable type_of]. split; [|intros _; exact T]. intros Hn. rewrite Hn in N. exact N.
+  - (* literal *)
+    injection EV as <-. cbn [nullable type_of well_typed]. split; [|auto]. intros Hn. apply negb_false_iff in Hn. exact Hn.
   - (* neg *)
-    tt. destruct (eval r a) as [[|z|t]|] eqn:Ea; try discriminate.
-    + injection EV as <-. split; [reflexivity|]. intros Hn. destruct (IHa VNull H eq_refl) as [_ Hnn]. specialize (Hnn Hn). discriminate.
-    + apply int_res_typed in EV. tauto.
-    + exfalso. destruct (IHa (VStr t) H eq_refl) as [Ht _]. apply (numeric_val _ _ H0 Ht).
-  - tt. destruct (eval r a) as [[|z|t]|] eqn:Ea; destruct (eval r b) as [[|w|u]|] eqn:Eb; cbn [bin_int] in EV; try discriminate;
-      try (apply int_res_typed in EV; tauto);
-      try (injection EV as <-; split; [reflexivity|]; intros Hn; tt;
-           try (destruct (IHa VNull H eq_refl) as [_ Q]; specialize (Q H3); discriminate);
-           try (destruct (IHb VNull H2 eq_refl) as [_ Q]; specialize (Q H4); discriminate)).
-    all: exfalso; first [destruct (IHa _ H eq_refl) as [Ht _]; apply (numeric_val _ _ H1 Ht) | destruct (IHb _ H2 eq_refl) as [Ht _]; apply (numeric_val _ _ H0 Ht)].
-  - tt. destruct (eval r a) as [[|z|t]|] eqn:Ea; destruct (eval r b) as [[|w|u]|] eqn:Eb; cbn [bin_int] in EV; try discriminate;
-      try (apply int_res_typed in EV; tauto);
-      try (injection EV as <-; split; [reflexivity|]; intros Hn; tt;
-           try (destruct (IHa VNull H eq_refl) as [_ Q]; specialize (Q H3); discriminate);
-           try (destruct (IHb VNull H2 eq_refl) as [_ Q]; specialize (Q H4); discriminate)).
-    all: exfalso; first [destruct (IHa _ H eq_refl) as [Ht _]; apply (numeric_val _ _ H1 Ht) | destruct (IHb _ H2 eq_refl) as [Ht _]; apply (numeric_val _ _ H0 Ht)].
-  - tt. destruct (eval r a) as [[|z|t]|] eqn:Ea; destruct (eval r b) as [[|w|u]|] eqn:Eb; cbn [bin_int] in EV; try discriminate;
-      try (apply int_res_typed in EV; tauto);
-      try (injection EV as <-; split; [reflexivity|]; intros Hn; tt;
-           try (destruct (IHa VNull H eq_refl) as [_ Q]; specialize (Q H3); discriminate);
-           try (destruct (IHb VNull H2 eq_refl) as [_ Q]; specialize (Q H4); discriminate)).
-    all: exfalso; first [destruct (IHa _ H eq_refl) as [Ht _]; apply (numeric_val _ _ H1 Ht) | destruct (IHb _ H2 eq_refl) as [Ht _]; apply (numeric_val _ _ H0 Ht)].
-  - (* intdiv: always nullable *)
-    split; [|discriminate]. tt.
-    destruct (eval r a) as [[|z|t]|] eqn:Ea; destruct (eval r b) as [[|w|u]|] eqn:Eb; cbn [bin_int] in EV; try discriminate;
-      try (injection EV as <-; reflexivity).
-    destruct (w =? 0); [injection EV as <-; reflexivity|]. apply int_res_typed in EV. tauto.
-  - split; [|discriminate]. tt.
-    destruct (eval r a) as [[|z|t]|] eqn:Ea; destruct (eval r b) as [[|w|u]|] eqn:Eb; cbn [bin_int] in EV; try discriminate;
-      try (injection EV as <-; reflexivity).
-    destruct (w =? 0); [injection EV as <-; reflexivity|]. apply int_res_typed in EV. tauto.
-  - (* eq *)
-    destruct (well_typed s a) eqn:Wa; [|discriminate]. destruct (well_typed s b) eqn:Wb; [|discriminate]. cbn [andb] in WT.
-    destruct (eval r a) as [[|z|t]|] eqn:Ea; destruct (eval r b) as [[|w|u]|] eqn:Eb; try discriminate;
-      injection EV as <-; (split; [try reflexivity; apply bool_val_typed|]); intros Hn; tt; try reflexivity.
-    all: try (destruct (IHa VNull eq_refl eq_refl) as [_ Q]; specialize (Q H); discriminate).
-    all: try (destruct (IHb VNull eq_refl eq_refl) as [_ Q]; specialize (Q H0); discriminate).
-    all: exfalso; destruct (IHa _ eq_refl eq_refl) as [Ta _]; destruct (IHb _ eq_refl eq_refl) as [Tb _];
-      apply orb_prop in WT; destruct WT as [WT|WT]; tt;
-      first [apply (numeric_val _ _ H1 Ta) | apply (numeric_val _ _ H2 Tb) | apply (str_val _ _ H1 Ta) | apply (str_val _ _ H2 Tb)].
-  - destruct (well_typed s a) eqn:Wa; [|discriminate]. destruct (well_typed s b) eqn:Wb; [|discriminate]. cbn [andb] in WT.
-    destruct (eval r a) as [[|z|t]|] eqn:Ea; destruct (eval r b) as [[|w|u]|] eqn:Eb; try discriminate;
-      injection EV as <-; (split; [try reflexivity; apply bool_val_typed|]); intros Hn; tt; try reflexivity.
-    all: try (destruct (IHa VNull eq_refl eq_refl) as [_ Q]; specialize (Q H); discriminate).
-    all: try (destruct (IHb VNull eq_refl eq_refl) as [_ Q]; specialize (Q H0); discriminate).
-    all: exfalso; destruct (IHa _ eq_refl eq_refl) as [Ta _]; destruct (IHb _ eq_refl eq_refl) as [Tb _];
-      apply orb_prop in WT; destruct WT as [WT|WT]; tt;
-      first [apply (numeric_val _ _ H1 Ta) | apply (numeric_val _ _ H2 Tb) | apply (str_val _ _ H1 Ta) | apply (str_val _ _ H2 Tb)].
-  - (* is null *)
-    destruct (eval r a) as [[|z|t]|]; try discriminate; injection EV as <-; split; auto.
-  - (* coalesce *)
-    apply andb_prop in WT. destruct WT as [WT Hty]. apply andb_prop in WT. destruct WT as [Wa Wb].
-    destruct (eval r a) as [[|z|t]|] eqn:Ea; try discriminate.
-    + destruct (IHb x Wb EV) as [Tb Nb]. split; [exact (proj2 (has_type_join _ _ x Hty) Tb)|]. intros Hn.
-      apply andb_false_elim in Hn. destruct Hn as [Hn|Hn]; [|apply Nb; exact Hn].
-      destruct (IHa VNull Wa eq_refl) as [_ Q]. specialize (Q Hn). discriminate.
-    + injection EV as <-. destruct (IHa (VInt z) Wa eq_refl) as [Ta _]. split; [exact (proj1 (has_type_join _ _ _ Hty) Ta)|reflexivity].
-    + injection EV as <-. destruct (IHa (VStr t) Wa eq_refl) as [Ta _]. split; [exact (proj1 (has_type_join _ _ _ Hty) Ta)|reflexivity].
-  - (* if *)
-    apply andb_prop in WT. destruct WT as [WT Hty]. apply andb_prop in WT. destruct WT as [WT Wb].
-    apply andb_prop in WT. destruct WT as [Wc Wa].
-    assert (B : eval r b = Ok x -> has_type (join_ty (type_of s a) (type_of s b)) x = true /\ (nullable s a || nullable s b = false -> notnull x = true)).
-    { intros E. destruct (IHb x Wb E) as [Tb Nb]. split; [exact (proj2 (has_type_join _ _ x Hty) Tb)|]. intros Hn.
-      apply orb_false_elim in Hn. destruct Hn as [_ Hn]. auto. }
-    assert (A : eval r a = Ok x -> has_type (join_ty (type_of s a) (type_of s b)) x = true /\ (nullable s a || nullable s b = false -> notnull x = true)).
-    { intros E. destruct (IHa x Wa E) as [Ta Na]. split; [exact (proj1 (has_type_join _ _ x Hty) Ta)|]. intros Hn.
-      apply orb_false_elim in Hn. destruct Hn as [Hn _]. auto. }
-    destruct (eval r c) as [[|z|t]|]; try discriminate; auto. destruct (z =? 0); auto.
-  - (* concat *)
-    apply andb_prop in WT. destruct WT as [WT Tb]. apply andb_prop in WT. destruct WT as [WT Ta].
-    apply andb_prop in WT. destruct WT as [Wa Wb].
-    destruct (eval r a) as [[|z|t]|] eqn:Ea; destruct (eval r b) as [[|w|u]|] eqn:Eb; try discriminate;
-      injection EV as <-; (split; [reflexivity|]); intros Hn; apply orb_false_elim in Hn; destruct Hn as [Hna Hnb]; try reflexivity.
-    all: try (destruct (IHa VNull Wa eq_refl) as [_ Q]; specialize (Q Hna); discriminate).
-    all: try (destruct (IHb VNull Wb eq_refl) as [_ Q]; specialize (Q Hnb); discriminate).
-    all: exfalso; first [destruct (IHa _ Wa eq_refl) as [Ha _]; apply (str_val _ _ Ta Ha) | destruct (IHb _ Wb eq_refl) as [Hb _]; apply (str_val _ _ Tb Hb)].
+    destruct (eval s r e) as [v|] eqn:Ea; [|discriminate]. cbn [bindr] in EV. destruct (IHe v eq_refl) as [N T].
+    cbn [nullable type_of well_typed]. split.
+    + intros Hn. eapply neg_notnull; eauto.
+    + intros W. apply andb_prop in W. destruct W as [W G]. eapply neg_typed; eauto.
+  - (* + - * *)
+    ev2 e1 e2. destruct (IHe1 _ eq_refl) as [N1 T1]. destruct (IHe2 _ eq_refl) as [N2 T2]. cbn [nullable type_of well_typed]. split.
+    + intros Hn. tt. eapply arith_notnull; eauto.
+    + intros W. tt. destruct (arith_int_ty o (type_of s e1) (type_of s e2) ltac:(assumption) ltac:(assumption)) as [k Ek]. rewrite Ek in *. eapply arith_typed; eauto.
+  - (* DIV *)
+    ev2 e1 e2. destruct (IHe1 _ eq_refl) as [N1 T1]. destruct (IHe2 _ eq_refl) as [N2 T2]. cbn [nullable type_of well_typed].
+    split; [discriminate|]. intros W. tt. eapply intdiv_typed; eauto.
+  - (* % *)
+    ev2 e1 e2. destruct (IHe1 _ eq_refl) as [N1 T1]. destruct (IHe2 _ eq_refl) as [N2 T2]. cbn [nullable]. split; [discriminate|].
+    intros W. cbn [well_typed] in W.
+    apply andb_prop in W; destruct W as [W G]. apply andb_prop in W; destruct W as [W I2].
+    apply andb_prop in W; destruct W as [W I1]. apply andb_prop in W; destruct W as [W1 W2].
+    destruct (type_of s (EMod e1 e2)) as [| |?|p sc| |] eqn:TY; try (destruct (is_int_lit e1); [|destruct (is_int_lit e2)]; discriminate).
+    assert (S1 : va = VNull \/ exists z, va = VInt z) by (destruct (int_shape _ _ I1 (T1 W1)) as [?|[z [? _]]]; eauto).
+    assert (S2 : vb = VNull \/ exists z, vb = VInt z) by (destruct (int_shape _ _ I2 (T2 W2)) as [?|[z [? _]]]; eauto).
+    destruct (is_int_lit e1) as [z|] eqn:L1.
+    + apply Z.ltb_lt in G. eapply (mod_typed p sc va vb x z); eauto. left. eapply int_lit_eval; eauto.
+    + destruct (is_int_lit e2) as [z|] eqn:L2; [|discriminate]. apply Z.ltb_lt in G.
+      eapply (mod_typed p sc va vb x z); eauto. right. eapply int_lit_eval; eauto.
+  - (* comparison *)
+    ev2 e1 e2. destruct (IHe1 _ eq_refl) as [N1 _]. destruct (IHe2 _ eq_refl) as [N2 _]. destruct (cmp_res_sound _ _ _ _ EV) as [T N].
+    cbn [nullable type_of]. split; [|auto]. intros Hn. tt. auto.
+  - (* AND *)
+    ev2 e1 e2. destruct (IHe1 _ eq_refl) as [N1 _]. destruct (IHe2 _ eq_refl) as [N2 _]. destruct (and3_sound _ _ _ EV) as [T N].
+    cbn [nullable type_of]. split; [|auto]. intros Hn. tt. auto.
+  - (* OR *)
+    ev2 e1 e2. destruct (IHe1 _ eq_refl) as [N1 _]. destruct (IHe2 _ eq_refl) as [N2 _]. destruct (or3_sound _ _ _ EV) as [T N].
+    cbn [nullable type_of]. split; [|auto]. intros Hn. tt. auto.
+  - (* NOT *)
+    destruct (eval s r e) as [v|] eqn:Ea; [|discriminate]. cbn [bindr] in EV. destruct (IHe v eq_refl) as [N _].
+    destruct (not3_sound _ _ EV) as [T Nn]. cbn [nullable type_of well_typed]. split; [auto|].
+    intros W. apply andb_prop in W. destruct W as [_ W]. destruct (type_of s e); try discriminate; exact T.
+  - (* IS NULL *)
+    destruct (eval s r e) as [v|] eqn:Ea; [|discriminate]. cbn [bindr] in EV. injection EV as <-.
+    cbn [nullable type_of]. split; intros; [reflexivity|apply bool_val_typed].
+  - (* IN *)
+    destruct (eval s r e) as [v|] eqn:Ea; [|discriminate]. cbn [bindr] in EV. cbn [nullable type_of]. split; [discriminate|]. intros _.
+    destruct v; try (injection EV as <-; reflexivity); eapply in_go_typed; exact EV.
+  - (* BETWEEN *)
+    destruct (eval s r e1) as [v1|] eqn:E1; [|discriminate]. destruct (eval s r e2) as [v2|] eqn:E2; [|discriminate].
+    destruct (eval s r e3) as [v3|] eqn:E3; [|discriminate]. cbn [bindr] in EV.
+    destruct (cmp_res Le v2 v1) as [p|] eqn:C1; [|discriminate]. destruct (cmp_res Ge v3 v1) as [q|] eqn:C2; [|discriminate]. cbn [bindr] in EV.
+    destruct (IHe1 _ eq_refl) as [N1 _]. destruct (IHe2 _ eq_refl) as [N2 _]. destruct (IHe3 _ eq_refl) as [N3 _].
+    destruct (cmp_res_sound _ _ _ _ C1) as [_ M1]. destruct (cmp_res_sound _ _ _ _ C2) as [_ M2]. destruct (and3_sound _ _ _ EV) as [T N].
+    cbn [nullable type_of]. split; [|auto]. intros Hn. tt. auto.
+  - (* CASE *)
+    cbn [nullable well_typed]. split.
+    + intros Hn. apply orb_false_elim in Hn. destruct Hn as [Hb He].
+      eapply (case_notnull _ els); [| |exact EV].
+      * destruct els as [e|]; [|discriminate]. intros y Ey. apply (proj1 (H0 y Ey)). exact He.
+      * clear EV. induction bs as [|p bs IHb]; [constructor|]. inversion H as [|? ? Hp Hr]; subst.
+        cbn [existsb] in Hb. apply orb_false_elim in Hb. destruct Hb as [Hb1 Hb2]. constructor; [|apply IHb; assumption].
+        intros y Ey. apply (proj1 (proj2 Hp y Ey)). exact Hb1.
+    + intros W. apply andb_prop in W. destruct W as [Wb We].
+      remember (type_of s (ECase bs els)) as t eqn:Et. clear Et.
+      eapply (case_sound t els); [| |exact EV].
+      * intros y. destruct els as [e|]; [|exact I]. intros Ey. apply andb_prop in We. destruct We as [We Hh].
+        apply holds_sound with (a := type_of s e); [exact Hh|]. apply (proj2 (H0 y Ey)). exact We.
+      * clear EV We. induction bs as [|p bs IHb]; [constructor|].
+        inversion H as [|? ? Hp Hr]; subst. cbn [forallb] in Wb. apply andb_prop in Wb. destruct Wb as [Wp Wr].
+        constructor; [|apply IHb; assumption]. intros y Ey. tt.
+        apply holds_sound with (a := type_of s (snd p)); [assumption|]. apply (proj2 (proj2 Hp y Ey)). assumption.
+  - (* NULLIF *)
+    ev2 e1 e2. destruct (IHe1 _ eq_refl) as [_ T1]. cbn [nullable type_of well_typed]. split; [discriminate|]. intros W. apply andb_prop in W; destruct W as [W1 W2].
+    specialize (T1 W1).
+    destruct va; try (injection EV as <-; reflexivity); destruct vb; try (injection EV as <-; exact T1);
+    (destruct (cmp_vals _ _) as [[| |]|]; [injection EV as <-; reflexivity|injection EV as <-; exact T1|injection EV as <-; exact T1|discriminate]).
+  - (* IFNULL *)
+    destruct (eval s r e1) as [v1|] eqn:E1; [|discriminate]. cbn [bindr] in EV. destruct (IHe1 _ eq_refl) as [N1 T1].
+    cbn [nullable type_of well_typed]. split.
+    + intros Hn. destruct (nullable s e1) eqn:Na.
+      * destruct v1; try (injection EV as <-; rewrite conv_notnull; reflexivity).
+        destruct (eval s r e2) as [v2|] eqn:E2; [|discriminate]. injection EV as <-. rewrite conv_notnull. apply (proj1 (IHe2 _ eq_refl)). exact Hn.
+      * specialize (N1 eq_refl). destruct v1; try discriminate; injection EV as <-; rewrite conv_notnull; reflexivity.
+    + intros W. tt. destruct v1; try (injection EV as <-; apply holds_sound with (a := type_of s e1); [assumption|auto]).
+      destruct (eval s r e2) as [v2|] eqn:E2; [|discriminate]. injection EV as <-. apply holds_sound with (a := type_of s e2); [assumption|]. apply (proj2 (IHe2 _ eq_refl)). assumption.
+  - (* COALESCE *)
+    destruct (eval s r e1) as [v1|] eqn:E1; [|discriminate]. cbn [bindr] in EV. destruct (IHe1 _ eq_refl) as [N1 T1].
+    cbn [nullable type_of well_typed]. split.
+    + intros Hn. apply andb_false_elim in Hn. destruct Hn as [Hn|Hn].
+      * specialize (N1 Hn). destruct v1; try discriminate; injection EV as <-; rewrite conv_notnull; reflexivity.
+      * destruct v1; try (injection EV as <-; rewrite conv_notnull; reflexivity).
+        destruct (eval s r e2) as [v2|] eqn:E2; [|discriminate]. injection EV as <-. rewrite conv_notnull. apply (proj1 (IHe2 _ eq_refl)). exact Hn.
+    + intros W. tt. destruct v1; try (injection EV as <-; apply holds_sound with (a := type_of s e1); [assumption|auto]).
+      destruct (eval s r e2) as [v2|] eqn:E2; [|discriminate]. injection EV as <-. apply holds_sound with (a := type_of s e2); [assumption|]. apply (proj2 (IHe2 _ eq_refl)). assumption.
+  - (* IF *)
+    destruct (eval s r e1) as [cv|] eqn:E1; [|discriminate]. cbn [bindr] in EV. cbn [nullable type_of well_typed].
+    assert (A : forall y, eval s r e2 = Ok y -> (nullable s e2 || nullable s e3 = false -> notnull (conv_to (generalize (type_of s e2) (type_of s e3)) y) = true) /\
+      (well_typed s e1 && well_typed s e2 && well_typed s e3 && holds (type_of s e2) (generalize (type_of s e2) (type_of s e3)) && holds (type_of s e3) (generalize (type_of s e2) (type_of s e3)) = true ->
+       has_type (generalize (type_of s e2) (type_of s e3)) (conv_to (generalize (type_of s e2) (type_of s e3)) y) = true)).
+    { intros y Ey. destruct (IHe2 _ Ey) as [N T]. split.
+      - intros Hn. tt. rewrite conv_notnull. auto.
+      - intros W. tt. apply holds_sound with (a := type_of s e2); [assumption|auto]. }
+    assert (B : forall y, eval s r e3 = Ok y -> (nullable s e2 || nullable s e3 = false -> notnull (conv_to (generalize (type_of s e2) (type_of s e3)) y) = true) /\
+      (well_typed s e1 && well_typed s e2 && well_typed s e3 && holds (type_of s e2) (generalize (type_of s e2) (type_of s e3)) && holds (type_of s e3) (generalize (type_of s e2) (type_of s e3)) = true ->
+       has_type (generalize (type_of s e2) (type_of s e3)) (conv_to (generalize (type_of s e2) (type_of s e3)) y) = true)).
+    { intros y Ey. destruct (IHe3 _ Ey) as [N T]. split.
+      - intros Hn. tt. rewrite conv_notnull. auto.
+      - intros W. tt. apply holds_sound with (a := type_of s e3); [assumption|auto]. }
+    destruct (truth cv) as [[[|]|]|]; try discriminate.
+    + destruct (eval s r e2) as [y|] eqn:Ey; [|discriminate]. injection EV as <-. apply A. reflexivity.
+    + destruct (eval s r e3) as [y|] eqn:Ey; [|discriminate]. injection EV as <-. apply B. reflexivity.
+    + destruct (eval s r e3) as [y|] eqn:Ey; [|discriminate]. injection EV as <-. apply B. reflexivity.
+  - (* GREATEST *)
+    ev2 e1 e2. destruct (IHe1 _ eq_refl) as [N1 _]. destruct (IHe2 _ eq_refl) as [N2 _]. cbn [nullable type_of well_typed]. split.
+    + intros Hn. tt. specialize (N1 ltac:(assumption)). specialize (N2 ltac:(assumption)). destruct va; try discriminate; destruct vb; try discriminate. apply fit_typed in EV. tauto.
+    + intros W. tt. unfold greatest_ty.
+      assert (Ia : is_integer (type_of s e1) = true) by assumption. assert (Ib : is_integer (type_of s e2) = true) by assumption.
+      rewrite Ia, Ib. cbn [andb].
+      destruct va; try discriminate; try (injection EV as <-; reflexivity); destruct vb; try discriminate; try (injection EV as <-; reflexivity).
+      apply fit_typed in EV. tauto.
+  - (* LEAST *)
+    ev2 e1 e2. destruct (IHe1 _ eq_refl) as [N1 _]. destruct (IHe2 _ eq_refl) as [N2 _]. cbn [nullable type_of well_typed]. split.
+    + intros Hn. tt. specialize (N1 ltac:(assumption)). specialize (N2 ltac:(assumption)). destruct va; try discriminate; destruct vb; try discriminate. apply fit_typed in EV. tauto.
+    + intros W. tt. unfold greatest_ty.
+      assert (Ia : is_integer (type_of s e1) = true) by assumption. assert (Ib : is_integer (type_of s e2) = true) by assumption.
+      rewrite Ia, Ib. cbn [andb].
+      destruct va; try discriminate; try (injection EV as <-; reflexivity); destruct vb; try discriminate; try (injection EV as <-; reflexivity).
+      apply fit_typed in EV. tauto.
+  - (* CAST *)
+    destruct (eval s r e) as [v|] eqn:Ea; [|discriminate]. cbn [bindr] in EV. destruct (IHe v eq_refl) as [N _].
+    destruct (cast_typed _ _ _ EV) as [T Nn]. cbn [nullable type_of]. split; [|auto]. destruct t; try discriminate; auto.
+  - (* CONCAT *)
+    ev2 e1 e2. destruct (IHe1 _ eq_refl) as [N1 _]. destruct (IHe2 _ eq_refl) as [N2 _]. destruct (concat_sound _ _ _ EV) as [T N].
+    cbn [nullable type_of]. split; [|auto]. intros Hn. tt. auto.
+  - (* UPPER *)
+    destruct (eval s r e) as [v|] eqn:Ea; [|discriminate]. cbn [bindr] in EV. destruct (IHe v eq_refl) as [N _].
+    cbn [nullable type_of well_typed]. split.
+    + intros Hn. specialize (N Hn). destruct v; try discriminate. injection EV as <-. reflexivity.
+    + intros W. tt. destruct (type_of s e); try discriminate. destruct v; try discriminate; injection EV as <-; reflexivity.
+  - (* SUBSTRING *)
+    destruct (eval s r e) as [v|] eqn:Ea; [|discriminate]. cbn [bindr] in EV. destruct (IHe v eq_refl) as [N _].
+    cbn [nullable type_of well_typed]. split.
+    + intros Hn. specialize (N Hn). destruct v; try discriminate. injection EV as <-. reflexivity.
+    + intros W. tt. destruct (type_of s e); try discriminate. destruct v; try discriminate; injection EV as <-; reflexivity.
+  - (* LENGTH *)
+    destruct (eval s r e) as [v|] eqn:Ea; [|discriminate]. cbn [bindr] in EV. destruct (IHe v eq_refl) as [N _].
+    cbn [nullable type_of]. split.
+    + intros Hn. specialize (N Hn). destruct v; try discriminate. apply fit_typed in EV. tauto.
+    + intros _. destruct v; try discriminate; try (injection EV as <-; reflexivity). apply fit_typed in EV. tauto.
 Qed.
+End Sound.
 
 (* ---------------- corollaries in the shape of the property ---------------- *)
-Theorem eval_has_type s r e x : conforms s r = true -> well_typed s e = true -> eval r e = Ok x ->
+Theorem eval_has_type s r e x : conforms s r = true -> well_typed s e = true -> eval s r e = Ok x ->
   has_type (type_of s e) x = true.
-Proof. intros HC WT EV. exact (proj1 (eval_sound s r HC e x WT EV)). Qed.
+Proof. intros HC WT EV. exact (proj2 (eval_sound s r HC e x EV) WT). Qed.
 
-Theorem not_null_sound s r e : conforms s r = true -> well_typed s e = true -> nullable s e = false ->
-  eval r e <> Ok VNull.
-Proof.
-  intros HC WT HN EV. pose proof (proj2 (eval_sound s r HC e VNull WT EV) HN) as H. discriminate.
-Qed.
-
-(* projections: every produced row conforms to the reported schema *)
-Fixpoint eval_all (r : row) (es : list expr) : option row :=
-  match es with
-  | [] => Some []
-  | e :: t => match eval r e, eval_all r t with Ok x, Some xs => Some (x :: xs) | _, _ => None end
-  end.
+(* nullability needs no guard at all: it holds for every expression of the language *)
+Theorem not_null_sound s r e : conforms s r = true -> nullable s e = false -> eval s r e <> Ok VNull.
+Proof. intros HC HN EV. pose proof (proj1 (eval_sound s r HC e VNull EV) HN) as H. discriminate. Qed.
 
 Theorem project_conforms s r : conforms s r = true -> forall es out,
-  forallb (well_typed s) es = true -> eval_all r es = Some out -> conforms (project_schema s es) out = true.
+  forallb (well_typed s) es = true -> eval_all s r es = Some out -> conforms (project_schema s es) out = true.
 Proof.
   intros HC. unfold project_schema. induction es as [|e t IH]; intros out WT EV; cbn [forallb eval_all map] in *.
   - injection EV as <-. reflexivity.
   - apply andb_prop in WT. destruct WT as [We Wt].
-    destruct (eval r e) as [x|] eqn:Ee; [|discriminate]. destruct (eval_all r t) as [xs|] eqn:Et; [|discriminate].
+    destruct (eval s r e) as [x|] eqn:Ee; [|discriminate]. destruct (eval_all s r t) as [xs|] eqn:Et; [|discriminate].
     injection EV as <-. cbn [conforms]. rewrite (IH xs Wt eq_refl), andb_true_r.
-    destruct (eval_sound s r HC e x We Ee) as [T N]. unfold conforms_col. cbn [c_ty c_nullable]. rewrite T. cbn [andb].
-    destruct (nullable s e); [reflexivity|]. specialize (N eq_refl). destruct x; [discriminate|reflexivity|reflexivity].
-Qed.
-
-(* making columns nullable never invalidates a row; an all-NULL row conforms to an all-nullable schema *)
-Lemma conforms_weaken a : forall b r, same_types a b = true ->
-  forallb (fun p => implb (c_nullable (fst p)) (c_nullable (snd p))) (combine a b) = true ->
-  conforms a r = true -> conforms b r = true.
-Proof.
-  induction a as [|ca a IH]; intros [|cb b] r ST NB HC; cbn in *; try discriminate; [destruct r; [reflexivity|discriminate]|].
-  destruct r as [|x r]; [discriminate|].
-  unfold same_types in ST. cbn in ST. apply andb_prop in ST. destruct ST as [SL ST]. apply andb_prop in ST. destruct ST as [ST1 ST2].
-  apply andb_prop in NB. destruct NB as [NB1 NB2]. apply andb_prop in HC. destruct HC as [HC1 HC2].
-  apply andb_true_intro. split.
-  - unfold conforms_col in *. apply andb_prop in HC1. destruct HC1 as [T N].
-    assert (E : c_ty cb = c_ty ca) by (destruct (c_ty ca), (c_ty cb); cbn in ST1; try discriminate; reflexivity).
-    rewrite E, T. cbn. destruct (c_nullable ca), (c_nullable cb); cbn in *; try discriminate; auto.
-  - apply IH; [|exact NB2|exact HC2]. unfold same_types. rewrite SL. exact ST2.
-Qed.
-
-Lemma nulls_conform s : conforms (make_nullable s) (repeat VNull (length s)) = true.
-Proof. unfold make_nullable. induction s as [|c s IH]; cbn [map length repeat conforms]; [reflexivity|]. rewrite IH. reflexivity. Qed.
-
-Lemma conforms_app a : forall b ra rb, conforms a ra = true -> conforms b rb = true -> conforms (a ++ b) (ra ++ rb) = true.
-Proof.
-  induction a as [|c a IH]; intros b [|x ra] rb HA HB; cbn in *; try discriminate; [exact HB|].
-  apply andb_prop in HA. destruct HA as [H1 H2]. rewrite H1. cbn. apply IH; assumption.
-Qed.
-
-Lemma make_nullable_conforms s : forall r, conforms s r = true -> conforms (make_nullable s) r = true.
-Proof.
-  unfold make_nullable. induction s as [|c s IH]; intros [|x r] H; cbn [map conforms] in *; try discriminate; [reflexivity|].
-  apply andb_prop in H. destruct H as [H1 H2]. rewrite (IH r H2), andb_true_r.
-  unfold conforms_col in *. cbn [c_ty c_nullable]. apply andb_prop in H1. destruct H1 as [T _]. rewrite T. reflexivity.
-Qed.
-
-(* LEFT JOIN: matched rows and NULL-padded unmatched rows both conform to the join schema *)
-Theorem left_join_conforms l r rl rr : conforms l rl = true -> conforms r rr = true ->
-  conforms (left_join_schema l r) (rl ++ rr) = true /\ conforms (left_join_schema l r) (pad rl (length r)) = true.
-Proof.
-  intros HL HR. unfold left_join_schema, pad. split; apply conforms_app; try assumption.
-  - apply make_nullable_conforms. exact HR.
-  - apply nulls_conform.
-Qed.
-
-(* UNION: rows of either input conform to the unified schema *)
-Theorem union_conforms a b r : same_types a b = true ->
-  (conforms a r = true -> conforms (union_schema a b) r = true) /\
-  (conforms b r = true -> conforms (union_schema a b) r = true).
-Proof.
-  revert b r. induction a as [|ca a IH]; intros [|cb b] r ST; cbn in *; try discriminate; [tauto|].
-  unfold same_types in ST. cbn in ST. apply andb_prop in ST. destruct ST as [SL ST]. apply andb_prop in ST. destruct ST as [ST1 ST2].
-  assert (STt : same_types a b = true) by (unfold same_types; rewrite SL; exact ST2).
-  assert (E : c_ty cb = c_ty ca) by (destruct (c_ty ca), (c_ty cb); cbn in ST1; try discriminate; reflexivity).
-  destruct r as [|x r]; [split; discriminate|]. destruct (IH b r STt) as [IA IB].
-  split; intros H; apply andb_prop in H; destruct H as [H1 H2]; apply andb_true_intro; split; auto;
-    unfold conforms_col in *; cbn; apply andb_prop in H1; destruct H1 as [T N]; rewrite <- ?E in *; rewrite ?E in *; rewrite T; cbn;
-    destruct (c_nullable ca), (c_nullable cb); cbn in *; auto.
+    destruct (eval_sound s r HC e x Ee) as [N T]. unfold conforms_col. cbn [c_ty c_nullable]. rewrite (T We). cbn [andb].
+    destruct (nullable s e); [reflexivity|]. exact (N eq_refl).
 Qed.
